@@ -17,7 +17,7 @@ caller encodes to size the placeholder — is the template with the stores made 
 Panic sites: `self.args[arg_pos]` (index) is `Res.panic` when the argument list is shorter than the
 kinds (theorem `assemble_no_panic`: unreachable because of the arity check). The `unreachable!()` of the
 `Identifier` getter follows a successful match on the same value and is not modelled separately. No
-arithmetic in `assemble` can overflow (`tgt - al_pc` is guarded by `tgt < al_pc ||`, the rest is `i64`).
+arithmetic in `assemble` can overflow (all offset arithmetic is `i64` on values below 2^33).
 
 Evaluation (`evaluate`, modelled by `Simp`) is a parameter `eval : Arg → EvalOut`; every outcome carries
 the argument as `evaluate` left it (it simplifies in place).
@@ -459,12 +459,13 @@ def setOp (i : Instr) (pos : Nat) (v : Val) : Instr :=
   | .uxth d r => match pos, v with | 0, .reg x => .uxth x r | 1, .reg x => .uxth d x | _, _ => i
   | _ => i
 
-/-- `(self.addr & !0b11).wrapping_add(4)` -/
-def alPc (addr : Nat) : Nat := (addr / 4 * 4 + 4) % 4294967296
-/-- `self.addr.wrapping_add(4)` -/
-def pcOf (addr : Nat) : Nat := (addr + 4) % 4294967296
+/-- `i64::from(self.addr & !0b11) + 4` — not wrapped (repair of the top-of-address-space finding) -/
+def alPc (addr : Nat) : Nat := addr / 4 * 4 + 4
+/-- `i64::from(self.addr) + 4` — not wrapped -/
+def pcOf (addr : Nat) : Nat := addr + 4
 
-/-- the ADR / LDR-literal offset computation; `tgt` is a `u32` -/
+/-- the ADR / LDR-literal offset computation; `tgt` is a `u32`; `tgt_off = i64::from(tgt) - al_pc`,
+`tgt_off < 0 || tgt_off > 0x3FC` → Range, `(tgt_off & 3) != 0` → Alignment -/
 def literal (addr : Nat) (tgt : Int) : Except Diag Int :=
   let al : Int := (alPc addr : Nat)
   if tgt < al ∨ tgt - al > 1020 then .error (.range 0 1020 (tgt - al))
